@@ -128,3 +128,32 @@ def unit_operators_returning_operand(repo: Repo):
                 elif isinstance(v, ast.IfExp) and any(isinstance(x, ast.Name) and x.id in names for x in (v.body, v.orelse)):
                     shared.append(norm(n))
         yield mf, shared
+
+
+def share(res, rid, prop, runner, src_rules, want=None, prefix="", min_keys=1):
+    """Obligations of another property's rule that are also necessary for this property: run that rule function into a
+    scratch Result and copy the obligations (discharged or violated) of `src_rules` whose key satisfies `want` into
+    `res` under rule `rid`.  The analysis is the other rule's; only the report is filed here as well."""
+    from engine.report import Result
+
+    tmp = Result(prop)
+    runner(tmp)
+    bad = {f.key: f for f in tmp.findings}
+    n = 0
+    for sr in src_rules:
+        if sr not in tmp.rules:
+            raise AnalysisError(f"shared rule {sr} was not produced")
+        for k in tmp.rules[sr]["keys"]:
+            if want is not None and not want(k):
+                continue
+            n += 1
+            full = f"{sr}/{k}"
+            if full in bad:
+                f = bad[full]
+                res.bad(prefix + k, f.where, f.msg, f.expected, f.found, path=f.path, rid=rid)
+            else:
+                res.ok(prefix + k, rid)
+    res.analysed_functions |= tmp.analysed_functions
+    if n < min_keys:
+        raise AnalysisError(f"shared rule(s) {src_rules} produced {n} matching obligations, expected at least {min_keys}")
+    return n
